@@ -153,10 +153,10 @@ def run_param(ctx, desc):
                                       f'recorded with {len(c.name)} characters', case)
                         return
             for w in snap.watches:
-                if w.error and len(w.error) > max(S, len("variable limit reached")):
+                if w.error and len(w.error) > max(S, 30):
                     ctx.violation('C05/max-string-length-exceeded/watch-error', f'max_string_length {S}: the error text of watch {w.expression[:20]!r} has {len(w.error)} characters', case)
                     return
-            budget = len('got  with  and ') + len('[deep] ') + 2 * max(S, 0) + max(S, len('KeyError'))     # (the third field fails: at least the name of the error)
+            budget = len('got  with  and ') + len('[deep] ') + 2 * max(S, 0) + max(S, 30)     # (the third field fails: at least the name of the error)
             if snap.log_msg is not None and len(snap.log_msg) > budget:
                 ctx.violation('C05/max-string-length-exceeded/log-message', f'max_string_length {S}: the log message (3 fields, 22 characters of its own) '
                               f'has {len(snap.log_msg)} characters', case)
